@@ -9,6 +9,12 @@ def _is_slot(ctx, t, fld):
     return any(st[0] == "field" and st[2] == fld for st in subterms(t))
 
 
+def _slot_seen_empty(ctx, p, fld):
+    """the path looked at the slot's content and found None (`if let Some(tx) = guard.as_ref()`
+    not taken, `take()` returned None): the store was already closed"""
+    return any(k[0] == "discr" and str(v).lstrip("*") == "None" and _is_slot(ctx, k[1], fld) for (k, v) in p.decisions)
+
+
 def st1_stop_is_close_plus_join(ctx, rep, entry="stop"):
     R = "ST1"
     A = ctx.A
@@ -36,7 +42,8 @@ def st1_stop_is_close_plus_join(ctx, rep, entry="stop"):
                 closes.append(e)
         ptakes = [e for e in evs if e.ck in ("std::option::Option::take", "std::mem::take") and _is_slot(ctx, e.args[0], A.f_pool)]
         joins = [e for e in evs if e.ck in POOL_JOIN]
-        ok1 = len(closes) >= 1
+        # a path on which the slot was found empty has nothing left to close
+        ok1 = len(closes) >= 1 or _slot_seen_empty(ctx, p, A.f_tx)
         rep.check(ok1, R, "closes-first:" + fn, ctx.where(stop), "path [%s] closes the dispatch queue" % p.describe(), "path [%s] returns without closing the dispatch queue" % p.describe())
         ok2 = len(ptakes) == 1 and (not closes or p.events.index(closes[0]) < p.events.index(ptakes[0]))
         rep.check(ok2, R, "takes-pool-after-close:" + fn, ctx.where(stop, ptakes[0].bb) if ptakes else ctx.where(stop),
@@ -215,6 +222,13 @@ def st4_callbacks_live_in_the_loop(ctx, rep):
         rep.check(inR and not inO and not inC, R, "callback-only-in-reducer-loop:%s:%s" % (ev, fn), s.where,
                   "%s is reachable only from the reducer thread's loop" % ev, "%s is reachable from %s" % (ev, "client/pool/thread code" if (inO or inC) else "nowhere on the reducer thread"))
     rep.floor(R, "callback call sites", n, 6)
+    # user code reaches the reducer thread only through the callback traits modelled above: a
+    # stored `Box<dyn Fn..>` (stop hook, filter, listener) called on that thread is user code no
+    # rule accounts for - it can block or panic between the last action and the shutdown release
+    FN = ("std::ops::Fn::call", "std::ops::FnMut::call_mut", "std::ops::FnOnce::call_once")
+    um = [(k, s) for k, s in G.call_nodes(lambda s: s.ck in FN and "dyn " in ((s.fn.get("args") or [""])[0]))]
+    rep.check(not um, R, "no-unmodelled-user-callback-on-reducer-thread", um[0][1].where if um else "", "the reducer thread calls no stored closure object",
+              "the reducer thread calls stored closure objects in %s: user code outside the Reducer / Middleware / Subscriber contracts runs on the thread every accepted action and the shutdown release depend on" % sorted({short(s.body.path) for k, s in um}))
 
 
 def st5_idempotent(ctx, rep):
@@ -229,8 +243,11 @@ def st5_idempotent(ctx, rep):
         for p in pe.paths:
             tk = [e for e in p.calls() if e.ck == "std::option::Option::take" and _is_slot(ctx, e.args[0], A.f_tx)]
             if not tk:
-                continue
-            v = [vv for (k, vv) in p.decisions if k == ("discr", tk[0].result) or k == ("discr", tk[0].result[1])]
+                if p.end != "return" or not _slot_seen_empty(ctx, p, A.f_tx):
+                    continue
+                v = ["None"]  # `if let Some(tx) = guard.as_ref() { ..; guard.take() }`: not entered
+            else:
+                v = [vv for (k, vv) in p.decisions if k == ("discr", tk[0].result) or k == ("discr", tk[0].result[1])]
             if v and v[0].lstrip("*") == "None":
                 n += 1
                 blocking = [e for e in p.calls() if e.site is not None and not e.inlined and (A.is_send_wrapper_call(e.site) or e.ck in POOL_JOIN)]
